@@ -758,7 +758,7 @@ func runEntry(cfg Config, prog *symex.Program, e entryInfo, findings []Finding) 
 		if p.Outcome == "return" && len(res.valCases) < 8 {
 			clean := true
 			for _, ef := range p.Effects {
-				if ef.Name == "select" || ef.Name == "spawn" {
+				if ef.Name == "select" || ef.Name == "spawn" || ef.Name == "concurrently" {
 					clean = false // scheduler choices cannot be scripted natively
 				}
 			}
